@@ -185,7 +185,7 @@ def describe_cond(F, fid, s, org):
         kind, bi, dest, x = ds[0]
         if kind == "call":
             to = x[2].get("to") or ""
-            return {"kind": "call", "callee": to, "neg": neg, "args": [sorted(org.of_operand(a)) for a in x[3]], "bb": bi}
+            return {"kind": "call", "callee": to, "neg": neg, "args": [sorted(org.of_operand(a)) for a in x[3]], "bb": bi, "ga": x[2].get("ga") or ""}
         rv = x
         if rv[0] == "bin":
             return {"kind": "bin", "op": rv[1], "neg": neg, "lhs": sorted(org.of_operand(rv[2])), "rhs": sorted(org.of_operand(rv[3])), "bb": bi}
